@@ -119,6 +119,14 @@ class NameSet(SymObj):
         x = I.fresh("nm", NameS)
         return z3.Exists([x], self.member(x))
 
+    def py_compare(self, I, op, other):
+        # subset / superset tests between two sets of names (req_names <= names is `not (req_names - names)`)
+        if isinstance(other, NameSet) and isinstance(op, (ast.LtE, ast.GtE)):
+            x = I.fresh("nm", NameS)
+            a, b = (self.member, other.member) if isinstance(op, ast.LtE) else (other.member, self.member)
+            return z3.ForAll([x], z3.Implies(a(x), b(x)))
+        return NotImplemented
+
     def py_contains(self, I, x):
         return self.member(I.term(x))
 
